@@ -492,6 +492,10 @@ theorem insertObject_ok {e e' : Engine} {o : Obj} (h : e.insertObject o = .ok e'
     split at h
     · cases h
     rename_i h2
+    split at h
+    · cases h
+    split at h
+    · cases h
     simp only [Except.ok.injEq] at h; subst h
     exact ⟨by simpa using h1, by simpa using h2, rfl⟩
   | banp b =>
@@ -513,6 +517,73 @@ theorem insertObject_ok {e e' : Engine} {o : Obj} (h : e.insertObject o = .ok e'
   | svc _ => simp only [insertObject, Except.ok.injEq] at h; subst h; rfl
   | ing _ => simp only [insertObject, Except.ok.injEq] at h; subst h; rfl
   | route _ => simp only [insertObject, Except.ok.injEq] at h; subst h; rfl
+
+/-- what the priority checks of a successful `insertANP` establish: the priority is within the
+range and held by no policy of the engine -/
+theorem insertANP_ok_prio {e e' : Engine} {a : ANP} (h : e.insertANP a = .ok e') :
+    a.validPriority = true ∧ ∀ b ∈ e.anps, b.prio ≠ a.prio := by
+  unfold insertANP at h
+  split at h
+  · cases h
+  split at h
+  · cases h
+  split at h
+  · cases h
+  rename_i h3
+  split at h
+  · cases h
+  rename_i h4
+  exact ⟨by simpa using h3, fun b hb hp => h4 (List.any_eq_true.mpr ⟨b, hb, by simp [hp]⟩)⟩
+
+/-- the engine a successful `insertANP` returns -/
+theorem insertANP_eq {e e' : Engine} {a : ANP} (h : e.insertANP a = .ok e') :
+    e' = { e with anpNames := e.anpNames ++ [a.name], anps := insertSorted a e.anps } := by
+  unfold insertANP at h
+  split at h
+  · cases h
+  split at h
+  · cases h
+  split at h
+  · cases h
+  split at h
+  · cases h
+  cases h; rfl
+
+theorem insertObject_anp_prio {e e' : Engine} {a : ANP} (h : e.insertObject (.anp a) = .ok e') :
+    a.validPriority = true ∧ ∀ b ∈ e.anps, b.prio ≠ a.prio := insertANP_ok_prio h
+
+/-- a priority outside the range is rejected at insertion (after the exposure and name checks) -/
+theorem insertANP_invalid {e : Engine} {a : ANP} (hexp : e.exposure = false)
+    (hn : a.name ∉ e.anpNames) (hv : a.validPriority = false) :
+    e.insertANP a = .error .anpPriority := by
+  simp [insertANP, hexp, hn, hv]
+
+/-- a priority held already is rejected at insertion (after the exposure and name checks) -/
+theorem insertANP_same_prio {e : Engine} {a b : ANP} (hexp : e.exposure = false)
+    (hn : a.name ∉ e.anpNames) (hb : b ∈ e.anps) (hp : b.prio = a.prio) :
+    e.insertANP a = .error .anpPriority := by
+  have hc : e.anpNames.contains a.name = false := by simpa using hn
+  have hany : (e.anps.any fun b => b.prio == a.prio) = true :=
+    List.any_eq_true.mpr ⟨b, hb, by simp [hp]⟩
+  simp only [insertANP, hexp, hc, hany, Bool.false_eq_true, if_false, if_true]
+  split <;> rfl
+
+/-- the success condition of `insertANP`, exactly -/
+theorem insertANP_ok_iff {e : Engine} {a : ANP} :
+    (∃ e', e.insertANP a = .ok e') ↔
+      e.exposure = false ∧ a.name ∉ e.anpNames ∧ a.validPriority = true ∧
+        ∀ b ∈ e.anps, b.prio ≠ a.prio := by
+  constructor
+  · rintro ⟨e', h⟩
+    have h1 := insertObject_ok (o := .anp a) h
+    exact ⟨h1.1, h1.2.1, insertANP_ok_prio h⟩
+  · rintro ⟨hexp, hn, hv, hp⟩
+    have hany : (e.anps.any fun b => b.prio == a.prio) = false := by
+      rw [Bool.eq_false_iff]; intro hh
+      obtain ⟨b, hb, hbp⟩ := List.any_eq_true.mp hh
+      exact hp b hb (by simpa using hbp)
+    exact ⟨{ e with anpNames := e.anpNames ++ [a.name], anps := insertSorted a e.anps },
+      by simp [insertANP, hexp, hn, hv, hany]⟩
 
 theorem polFields_netpols {e e' : Engine} (h : polFields e' = polFields e) :
     e'.netpols = e.netpols := congrArg (·.1) h
@@ -819,6 +890,81 @@ theorem sortANPs_ok_of {e : Engine} (hv : ∀ a ∈ e.anps, a.validPriority = tr
     rw [List.any_eq_false]; intro a ha; simp [hv a ha]
   simp [this, h]
 
+/-! ### the priorities held by the engine -/
+
+/-- the priorities of the policies the engine holds are pairwise distinct and within 0..1000 -/
+def PrioInv (e : Engine) : Prop :=
+  (e.anps.map (·.prio)).Nodup ∧ ∀ a ∈ e.anps, a.validPriority = true
+
+theorem prioInv_insertSorted {l : List ANP} {a : ANP}
+    (hi : (l.map (·.prio)).Nodup ∧ ∀ b ∈ l, b.validPriority = true)
+    (hv : a.validPriority = true) (hp : ∀ b ∈ l, b.prio ≠ a.prio) :
+    ((insertSorted a l).map (·.prio)).Nodup ∧ ∀ b ∈ insertSorted a l, b.validPriority = true := by
+  constructor
+  · refine (((insertSorted_perm a l).map (·.prio)).nodup_iff).mpr ?_
+    rw [List.map_cons, List.nodup_cons]
+    refine ⟨?_, hi.1⟩
+    intro hm
+    obtain ⟨b, hb, hbp⟩ := List.mem_map.mp hm
+    exact hp b hb hbp
+  · intro b hb
+    rcases mem_insertSorted.mp hb with rfl | hb
+    · exact hv
+    · exact hi.2 b hb
+
+/-- every successful `insertObject` keeps the priorities distinct and valid: `insertANP` refuses
+the policies that would not -/
+theorem insertObject_prioInv {e e' : Engine} {o : Obj} (h : e.insertObject o = .ok e')
+    (hi : PrioInv e) : PrioInv e' := by
+  have hok := insertObject_ok h
+  unfold PrioInv
+  cases o with
+  | anp a =>
+    obtain ⟨hv, hp⟩ := insertObject_anp_prio h
+    obtain ⟨_, _, hf⟩ := hok
+    have h2 : e'.anps = _ := congrArg (·.2.1) hf
+    simp only at h2
+    rw [h2]
+    exact prioInv_insertSorted hi hv hp
+  | np p =>
+    obtain ⟨_, hf⟩ := hok
+    have h2 : e'.anps = _ := congrArg (·.2.1) hf
+    simp only at h2
+    rw [h2]; exact hi
+  | banp b =>
+    obtain ⟨_, _, _, hf⟩ := hok
+    have h2 : e'.anps = _ := congrArg (·.2.1) hf
+    simp only at h2
+    rw [h2]; exact hi
+  | pod p => rw [polFields_anps hok.2]; exact hi
+  | ns _ | wl _ | svc _ | ing _ | route _ =>
+    have hf : polFields e' = polFields e := hok
+    rw [polFields_anps hf]; exact hi
+
+theorem fold_prioInv {objs : List Obj} {e0 e : Engine} (h : objs.foldlM insertObject e0 = .ok e)
+    (hi : PrioInv e0) : PrioInv e :=
+  foldlM_invariant (f := insertObject) PrioInv (fun _ _ _ hs hstep => insertObject_prioInv hstep hs)
+    objs e0 e hi h
+
+theorem prioInv_empty : PrioInv ({} : Engine) := ⟨List.nodup_nil, fun _ h => by cases h⟩
+
+/-- **`build` never reaches the sort with a conflict**: after a successful insertion fold the
+priorities are pairwise distinct and valid, so `sortANPs` accepts -/
+theorem fold_sortANPs_ok {objs : List Obj} {e : Engine}
+    (h : objs.foldlM insertObject ({} : Engine) = .ok e) : ∃ e', e.sortANPs = .ok e' := by
+  obtain ⟨h1, h2⟩ := fold_prioInv h prioInv_empty
+  exact sortANPs_ok_of h2 h1
+
+/-- hence `build` fails exactly when the insertion fold fails, with its error -/
+theorem build_error_iff_fold {objs : List Obj} {err : Err} :
+    Engine.build objs = .error err ↔ objs.foldlM insertObject ({} : Engine) = .error err := by
+  rw [build_eq]
+  cases hf : objs.foldlM insertObject ({} : Engine) with
+  | error err' => simp
+  | ok e =>
+    obtain ⟨e', he'⟩ := fold_sortANPs_ok hf
+    simp [he']
+
 theorem sortANPs_error {e : Engine} {err : Err} (h : e.sortANPs = .error err) :
     err = .anpPriority := by
   unfold sortANPs at h
@@ -854,9 +1000,9 @@ theorem insertObject_np_ok {e : Engine} {p : NetPol} (h : ¬ hasNetpol e (npNs p
   exact ⟨_, rfl⟩
 
 theorem insertObject_anp_ok {e : Engine} {a : ANP} (hexp : e.exposure = false)
-    (h : a.name ∉ e.anpNames) : ∃ e', e.insertObject (.anp a) = .ok e' := by
-  simp only [insertObject, insertANP, hexp]
-  simp [h]
+    (h : a.name ∉ e.anpNames) (hv : a.validPriority = true) (hp : ∀ b ∈ e.anps, b.prio ≠ a.prio) :
+    ∃ e', e.insertObject (.anp a) = .ok e' :=
+  insertANP_ok_iff.mpr ⟨hexp, h, hv, hp⟩
 
 theorem insertObject_banp_ok {e : Engine} {b : BANP} (hexp : e.exposure = false)
     (h : e.banp = none) (hb : b.name = "default") : ∃ e', e.insertObject (.banp b) = .ok e' := by
@@ -872,7 +1018,9 @@ theorem fold_ok_of_conflict_free (objs : List Obj) (e0 : Engine)
     (hanp : (e0.anpNames ++ (anpsOf objs).map (·.name)).Nodup)
     (hbanp : (e0.banp.toList ++ banpsOf objs).length ≤ 1)
     (hbn : ∀ b ∈ banpsOf objs, b.name = "default")
-    (hpod : ∀ p ∈ podsOf objs, p.hostIP ≠ "") :
+    (hpod : ∀ p ∈ podsOf objs, p.hostIP ≠ "")
+    (hprio : (e0.anps.map (·.prio) ++ (anpsOf objs).map (·.prio)).Nodup)
+    (hvalid : ∀ a ∈ anpsOf objs, a.validPriority = true) :
     ∃ e, objs.foldlM insertObject e0 = .ok e := by
   induction objs generalizing e0 with
   | nil => exact ⟨e0, rfl⟩
@@ -884,20 +1032,30 @@ theorem fold_ok_of_conflict_free (objs : List Obj) (e0 : Engine)
         (e1.anpNames ++ (anpsOf objs).map (·.name)).Nodup ∧
         (e1.banp.toList ++ banpsOf objs).length ≤ 1 ∧
         (∀ b ∈ banpsOf objs, b.name = "default") ∧
-        (∀ p ∈ podsOf objs, p.hostIP ≠ "")) →
+        (∀ p ∈ podsOf objs, p.hostIP ≠ "") ∧
+        (e1.anps.map (·.prio) ++ (anpsOf objs).map (·.prio)).Nodup ∧
+        (∀ a ∈ anpsOf objs, a.validPriority = true)) →
         ∃ e, (o :: objs).foldlM insertObject e0 = .ok e := by
-      intro e1 h1 ⟨a1, a2, a3, a4, a5, a6⟩
-      obtain ⟨e, he⟩ := ih e1 a1 a2 a3 a4 a5 a6
+      intro e1 h1 ⟨a1, a2, a3, a4, a5, a6, a7, a8⟩
+      obtain ⟨e, he⟩ := ih e1 a1 a2 a3 a4 a5 a6 a7 a8
       exact ⟨e, by rw [List.foldlM_cons, h1]; exact he⟩
     have other : (∃ e1, e0.insertObject o = .ok e1 ∧ polFields e1 = polFields e0) →
         npsOf (o :: objs) = npsOf objs → anpsOf (o :: objs) = anpsOf objs →
         banpsOf (o :: objs) = banpsOf objs → podsOf (o :: objs) = podsOf objs →
         ∃ e, (o :: objs).foldlM insertObject e0 = .ok e := by
       intro ⟨e1, h1, hf⟩ q1 q2 q3 q4
-      rw [q1] at hnp; rw [q2] at hanp; rw [q3] at hbanp hbn; rw [q4] at hpod
+      rw [q1] at hnp; rw [q2] at hanp hprio hvalid; rw [q3] at hbanp hbn; rw [q4] at hpod
       exact key e1 h1 ⟨by rw [polFields_exposure hf]; exact hexp,
         by rw [polFields_netpols hf]; exact hnp, by rw [polFields_anpNames hf]; exact hanp,
-        by rw [polFields_banp hf]; exact hbanp, hbn, hpod⟩
+        by rw [polFields_banp hf]; exact hbanp, hbn, hpod,
+        by rw [polFields_anps hf]; exact hprio, hvalid⟩
+    -- the steps that leave the ANP list alone
+    have anpsSame : anpsOf (o :: objs) = anpsOf objs → ∀ e1 : Engine, e1.anps = e0.anps →
+        (e1.anps.map (·.prio) ++ (anpsOf objs).map (·.prio)).Nodup ∧
+        (∀ a ∈ anpsOf objs, a.validPriority = true) := by
+      intro q e1 h1
+      rw [q] at hprio hvalid
+      exact ⟨by rw [h1]; exact hprio, hvalid⟩
     cases o with
     | np p =>
       have hnp' : (e0.netpols.map (fun q => (q.ns, q.name)) ++
@@ -916,8 +1074,10 @@ theorem fold_ok_of_conflict_free (objs : List Obj) (e0 : Engine)
       have f4 : e1.banp = _ := congrArg (·.2.2.2.1) hf
       have f5 : e1.exposure = _ := congrArg (·.2.2.2.2) hf
       simp only at f1 f3 f4 f5
+      have f2 : e1.anps = _ := congrArg (·.2.1) hf
+      simp only at f2
       refine key e1 h1 ⟨by rw [f5]; exact hexp, ?_, by rw [f3]; exact hanp, by rw [f4]; exact hbanp,
-        hbn, hpod⟩
+        hbn, hpod, anpsSame rfl e1 f2⟩
       rw [f1, List.map_append, List.append_assoc]
       have : List.map (fun q : NetPol => (q.ns, q.name))
           [if p.ns == "" then { p with ns := "default" } else p] = [npKey p] := by
@@ -927,16 +1087,27 @@ theorem fold_ok_of_conflict_free (objs : List Obj) (e0 : Engine)
       have hanp' : (e0.anpNames ++ a.name :: (anpsOf objs).map (·.name)).Nodup := hanp
       have hno : a.name ∉ e0.anpNames := fun hm =>
         (List.nodup_append.mp hanp').2.2 _ hm _ (List.mem_cons_self ..) rfl
+      have hprio' : (e0.anps.map (·.prio) ++ a.prio :: (anpsOf objs).map (·.prio)).Nodup := hprio
+      have hfresh : ∀ b ∈ e0.anps, b.prio ≠ a.prio := fun b hb hp =>
+        (List.nodup_append.mp hprio').2.2 _ (List.mem_map.mpr ⟨b, hb, rfl⟩) _
+          (List.mem_cons_self ..) hp
       obtain ⟨e1, h1⟩ := insertObject_anp_ok hexp hno
+        (hvalid a (by show a ∈ a :: anpsOf objs; simp)) hfresh
       obtain ⟨_, _, hf⟩ := insertObject_ok h1
       have f1 : e1.netpols = _ := congrArg (·.1) hf
+      have f2 : e1.anps = _ := congrArg (·.2.1) hf
       have f3 : e1.anpNames = _ := congrArg (·.2.2.1) hf
       have f4 : e1.banp = _ := congrArg (·.2.2.2.1) hf
       have f5 : e1.exposure = _ := congrArg (·.2.2.2.2) hf
-      simp only at f1 f3 f4 f5
+      simp only at f1 f2 f3 f4 f5
       refine key e1 h1 ⟨by rw [f5]; exact hexp, by rw [f1]; exact hnp, ?_, by rw [f4]; exact hbanp,
-        hbn, hpod⟩
-      rw [f3, List.append_assoc]; exact hanp'
+        hbn, hpod, ?_, fun a' ha' => hvalid a' (by show a' ∈ a :: anpsOf objs; simp [ha'])⟩
+      · rw [f3, List.append_assoc]; exact hanp'
+      · rw [f2]
+        refine (List.Perm.nodup_iff ?_).mpr hprio'
+        refine ((((insertSorted_perm a e0.anps).map _).append_right _).trans ?_)
+        exact (List.perm_middle (l₁ := e0.anps.map (·.prio)) (a := a.prio)
+          (l₂ := (anpsOf objs).map (·.prio))).symm
     | banp b =>
       have hbanp' : (e0.banp.toList ++ b :: banpsOf objs).length ≤ 1 := hbanp
       have hnone : e0.banp = none := by
@@ -955,8 +1126,11 @@ theorem fold_ok_of_conflict_free (objs : List Obj) (e0 : Engine)
       have f4 : e1.banp = _ := congrArg (·.2.2.2.1) hf
       have f5 : e1.exposure = _ := congrArg (·.2.2.2.2) hf
       simp only at f1 f3 f4 f5
+      have f2 : e1.anps = _ := congrArg (·.2.1) hf
+      simp only at f2
       refine key e1 h1 ⟨by rw [f5]; exact hexp, by rw [f1]; exact hnp, by rw [f3]; exact hanp, ?_,
-        fun b' hb' => hbn b' (by show b' ∈ b :: banpsOf objs; simp [hb']), hpod⟩
+        fun b' hb' => hbn b' (by show b' ∈ b :: banpsOf objs; simp [hb']), hpod,
+        anpsSame rfl e1 f2⟩
       rw [f4, hrest]; simp
     | pod p =>
       have hp : p.hostIP ≠ "" := hpod p (by show p ∈ p :: podsOf objs; simp)
@@ -965,7 +1139,8 @@ theorem fold_ok_of_conflict_free (objs : List Obj) (e0 : Engine)
       refine key e1 h1 ⟨by rw [polFields_exposure hf]; exact hexp,
         by rw [polFields_netpols hf]; exact hnp, by rw [polFields_anpNames hf]; exact hanp,
         by rw [polFields_banp hf]; exact hbanp, hbn,
-        fun p' hp' => hpod p' (by show p' ∈ p :: podsOf objs; simp [hp'])⟩
+        fun p' hp' => hpod p' (by show p' ∈ p :: podsOf objs; simp [hp']),
+        anpsSame rfl e1 (polFields_anps hf)⟩
     | ns _ | wl _ | svc _ | ing _ | route _ =>
       exact other ⟨_, rfl, by first | rfl | exact polFields_insertWorkload _ _⟩ rfl rfl rfl rfl
 
@@ -984,7 +1159,8 @@ theorem insertObject_np_dup {e : Engine} {p : NetPol} (h : hasNetpol e (npNs p) 
 
 /-- the conflict classes: the only errors `insertObject` raises on an engine without exposure
 analysis -/
-def conflictErrs : List Err := [.dupNetpol, .dupANP, .banpExists, .banpName, .badPod]
+def conflictErrs : List Err :=
+  [.dupNetpol, .dupANP, .anpPriority, .banpExists, .banpName, .badPod]
 
 theorem insertObject_error_class {e : Engine} {o : Obj} {err : Err} (hexp : e.exposure = false)
     (h : e.insertObject o = .error err) : err ∈ conflictErrs := by
@@ -1008,7 +1184,11 @@ theorem insertObject_error_class {e : Engine} {o : Obj} {err : Err} (hexp : e.ex
     simp only [insertObject, insertANP, hexp, Bool.false_eq_true, if_false] at h
     split at h
     · cases h; simp [conflictErrs]
-    · cases h
+    · split at h
+      · cases h; simp [conflictErrs]
+      · split at h
+        · cases h; simp [conflictErrs]
+        · cases h
   | banp b =>
     simp only [insertObject, insertBANP, hexp, Bool.false_eq_true, if_false] at h
     split at h
